@@ -232,7 +232,7 @@ theorem cloopLoop_frame (run : St → Res) (hrun : FrameOK run) (ls : CLoopSpec)
             · cases hio : iterAfterBody rb with
               | abort st => rw [hio] at hio_w; exact hio_w
               | stop st => rw [hio] at hio_w; exact hio_w
-              | next st => rw [hio] at hio_w; exact (ih _ _ _ { st with c := st.c.setStatic ls.cnt (Val.int (stepVal ls.cntOp v)) } hio_w).1
+              | next st => rw [hio] at hio_w; exact (ih _ _ _ { st with c := { st.c.setStatic ls.cnt (Val.int (stepVal ls.cntOp v)) with err := none } } hio_w).1
             · cases hio : iterAfterBody rb with
               | abort st => rw [hio] at hio_w; exact hio_w
               | stop st => exact r1
@@ -252,7 +252,7 @@ theorem cloopLoop_frame (run : St → Res) (hrun : FrameOK run) (ls : CLoopSpec)
               | next st =>
                 rw [hio] at hio_w
                 simp only [IterOut.pre]
-                exact (ih _ _ _ { st with c := st.c.setStatic ls.cnt (Val.int (stepVal ls.cntOp v)) } hio_w).2 pl po k
+                exact (ih _ _ _ { st with c := { st.c.setStatic ls.cnt (Val.int (stepVal ls.cntOp v)) with err := none } } hio_w).2 pl po k
             · cases hio : iterAfterBody rb with
               | abort st => rfl
               | stop st => rfl
@@ -378,7 +378,7 @@ theorem rloopQB_frame (run : St → Res) (hrun : FrameOK run) (runElse : Option 
     ∀ pl po k, (match cmpPath s.c.vars s.c.chQB ls.src with | none => _ | some p => _ : Res) = _
   cases cmpPath s.c.vars s.c.chQB ls.src with
   | none => exact ⟨h, fun _ _ _ => rfl⟩
-  | some p => exact rloopWith_frame run hrun runElse helse { ls with src := p } s h
+  | some p => exact rloopWith_frame run hrun runElse helse { ls with src := p } { s with c := { s.c with err := none } } h
 
 theorem loopNode_frame (loop : St → Res) (hl : FrameOK loop) : FrameOK (loopNode loop) := by
   intro s h
